@@ -247,6 +247,9 @@ func (g *Gen) fill(kind string, p *Program) Op {
 			op.I = []int64{int64(g.R.Range(1, 60)), int64(g.R.Range(1, 60)), 0, 0}
 			if g.R.P(1, 4) {
 				op.I[2], op.I[3] = int64(g.R.Range(1, 3)), int64(g.R.N(12))
+				if g.R.P(1, 3) {
+					op.I[2] = 3
+				}
 			}
 		}
 	case "UnmarshalJSON":
